@@ -1286,7 +1286,29 @@ def _native_histories(tier="quick", seed=0):
         b.shapes.add_movie(mv(1), 0, 0, 100, 100, poster_frame_image=None, mime_type="video/mp4")
         return prs
 
-    for label, script in (("image_reused_after_its_layout_was_removed", scripted_image_reuse), ("media_reused_after_its_slide_was_dropped", scripted_media_reuse)):
+    def scripted_actions_on_layout_placeholders():
+        # what a layout placeholder refers to through ITS part's relationships (a click action, a hover action) means nothing in a slide
+        # made from that layout: the slide must not end up referring to relationship ids it does not have
+        prs = Presentation()
+        for li in (0, 1):
+            lay = prs.slide_layouts[li]
+            for k, ph in enumerate(lay.placeholders):
+                ph.click_action.hyperlink.address = "http://example.com/layout%d/%d" % (li, k)
+            nm = prs.notes_master
+            for ph in nm.placeholders:
+                ph.click_action.hyperlink.address = "http://example.com/notes-master"
+            sl = prs.slides.add_slide(lay)
+            sl.shapes.add_picture(io.BytesIO(png((1, 2, li))), 0, 0)
+            sl.notes_slide.notes_text_frame.text = "n"
+            for part_ in (sl.part, sl.notes_slide.part):
+                refs = part_._element.xpath("//a:hlinkClick/@r:id | //a:hlinkHover/@r:id")
+                if refs:
+                    raise AssertionError("a slide / notes slide just made from a layout / notes master whose placeholders carry click actions refers to %s of its own part %s (%s)" % (
+                        refs, part_.partname, [part_.rels[r_].reltype.split("/")[-1] if r_ in part_.rels else "no such relationship" for r_ in refs]))
+        return prs
+
+    for label, script in (("image_reused_after_its_layout_was_removed", scripted_image_reuse), ("media_reused_after_its_slide_was_dropped", scripted_media_reuse),
+                          ("slides_made_from_layouts_whose_placeholders_carry_actions", scripted_actions_on_layout_placeholders)):
         bad = None
         try:
             prs = script()
